@@ -387,21 +387,21 @@ def shrink_case(root, pid, case_text, name, budget=150):
 # ------------------------------------------------------------------------------------------------ property table
 # profile mix, number of generated cases (quick, thorough), the monitors that speak for the property
 PROPS = {
-    'C01': dict(profiles=['valid', 'valid', 'hostile', 'faults'], n=(3000, 120000), large=['large']),
-    'C02': dict(profiles=['valid', 'hostile', 'faults'], n=(3000, 120000), large=['large']),
-    'C03': dict(profiles=['valid', 'hostile', 'faults', 'faults_hostile'], n=(3000, 120000), large=['large', 'large_faults']),
-    'C05': dict(profiles=['faults', 'faults_hostile'], n=(3000, 120000), large=['large_faults']),
-    'C06': dict(profiles=['hostile', 'faults_hostile'], n=(3000, 100000), large=['large', 'large_faults']),
+    'C01': dict(profiles=['valid', 'valid', 'hostile', 'faults'], n=(3000, 120000), large=['large', 'steered']),
+    'C02': dict(profiles=['valid', 'hostile', 'faults'], n=(3000, 120000), large=['large', 'steered', 'steered_faults']),
+    'C03': dict(profiles=['valid', 'hostile', 'faults', 'faults_hostile'], n=(3000, 120000), large=['large', 'large_faults', 'steered', 'steered_faults']),
+    'C05': dict(profiles=['faults', 'faults_hostile'], n=(3000, 120000), large=['large_faults', 'steered_faults']),
+    'C06': dict(profiles=['hostile', 'faults_hostile'], n=(3000, 100000), large=['large', 'large_faults', 'steered']),
     'C07': dict(profiles=['hostile', 'hostile', 'valid'], n=(3000, 100000), large=['large']),
-    'C08': dict(profiles=['valid', 'hostile'], n=(2000, 80000), large=['large']),
-    'C09': dict(profiles=['valid', 'hostile', 'faults'], n=(3000, 90000), large=['large']),
-    'C10': dict(profiles=['valid', 'hostile', 'faults'], n=(2000, 80000), large=['large']),
-    'C11': dict(profiles=['valid', 'hostile', 'faults'], n=(3000, 90000), large=['large']),
-    'C12': dict(profiles=['valid', 'hostile', 'faults'], n=(3000, 90000), large=['large']),
-    'C13': dict(profiles=['valid', 'hostile', 'faults'], n=(2000, 80000), large=['large']),
+    'C08': dict(profiles=['valid', 'hostile'], n=(2000, 80000), large=['large', 'steered']),
+    'C09': dict(profiles=['valid', 'hostile', 'faults'], n=(3000, 90000), large=['large', 'steered']),
+    'C10': dict(profiles=['valid', 'hostile', 'faults'], n=(2000, 80000), large=['large', 'steered']),
+    'C11': dict(profiles=['valid', 'hostile', 'faults'], n=(3000, 90000), large=['large', 'steered']),
+    'C12': dict(profiles=['valid', 'hostile', 'faults'], n=(3000, 90000), large=['large', 'steered']),
+    'C13': dict(profiles=['valid', 'hostile', 'faults'], n=(2000, 80000), large=['large', 'steered']),
     'C15': dict(profiles=['valid', 'hostile', 'faults'], n=(1500, 60000)),
     'C17': dict(profiles=['valid', 'hostile'], n=(1500, 60000), large=['large']),
-    'C18': dict(profiles=['hostile', 'faults'], n=(3000, 100000), large=['large']),
+    'C18': dict(profiles=['hostile', 'faults'], n=(3000, 100000), large=['large', 'steered', 'steered_faults']),
     'C20': dict(profiles=['valid', 'hostile', 'faults'], n=(1500, 60000), large=['large']),
 }
 
@@ -722,9 +722,10 @@ def decide(root, pid, tier, seed, replay=None):
                     done += c; start += c
                     if len(res.violations) >= 5:
                         break
-            # texts and capacities of a page or more (few operations each): thresholds a change may hide behind
+            # extra passes: texts and capacities of a page or more (few operations each), and steered histories (sharers of
+            # different lengths, appends into reserved room with exact size hints, refused reservations on sharers)
             for li, prof in enumerate(cfg.get('large', [])):
-                nl = (240 if tier == 'quick' else 6000) // len(cfg['large'])
+                nl = 240 if tier == 'quick' else 4000
                 explore(root, pid, res, gen_text(root, seed * 1000 + 70 + li, nl, prof, 8 * 10 ** 6 + li * 10 ** 5), '%s_s%d' % (prof, seed), stats)
     if pid == 'C12' and not replay and st['harness']['ok']:
         # (without a model — e.g. the translator rejected the source — the loops are still checked against the property's bounds)
